@@ -58,6 +58,7 @@ import Proofs.Lemmas.WalkValid3
 import Proofs.Lemmas.WalkYield
 import Proofs.Lemmas.WalkNames
 import Proofs.Lemmas.WalkFrame
+import Proofs.Lemmas.LowerDeriv
 import Proofs.Lemmas.GramXPath
 import Proofs.Lemmas.ParseGram
 import Proofs.Lemmas.ParseRender
@@ -999,5 +1000,41 @@ theorem abbreviated_child_step_with_predicates (t : NodeTest) (D : PT) (w : WCtx
 
 /-- the hypothesis of the forest theorems holds for the sample tree (non-vacuity) -/
 example : Xsel.Walk.walkOk sampleTree = true := by decide +kernel
+
+open Xsel.Walk in
+/-- **any_forest_walk_refines_eval** — the forest theorem without the word "canonical": for EVERY derivation
+    tree `t` that denotes an expression (`L2.lower t = some x`, Xsel/Lower.lean: unit productions and
+    parentheses vanish, `@`, a missing axis, `.`, `..`, `//` and keyword-names become what they abbreviate, a
+    call inside a path takes the path as its base — whichever of the grammar's alternatives the parser
+    chose), `exec.Exec`'s walk over `t` with the REGENERATED handler table returns exactly what the evaluator
+    on abstract syntax returns for `x`, or fails with the same error, and never panics.  The driver checks on
+    every generated string, in every spelling, that `L2.lower` of the forest the REAL parser built is the
+    model parser's reading of the string (`lower=1`), so this theorem applies to the real forests, not only
+    to `derivTop`'s. -/
+theorem any_forest_walk_refines_eval (a : Arena) (env : Env) (start : Nat) (t : PT) (x : Expr)
+    (h : L2.lower t = some x) :
+    Walk.run Generated.handlers a env start t = ofEval (Model.run a env start x) := by
+  rw [Gen.handlers_agree]
+  exact run_of_sim (L2.walk_lower t x h _)
+
+open Xsel.Walk in
+/-- **lower_inverts_derivTop** — the trees `any_forest_walk_refines_eval` speaks about include every canonical
+    tree: `lower` reads `derivTop e` back as `e` (`.` as `self::node()`).  (`forest_walk_refines_eval` is
+    therefore a corollary of the two.) -/
+theorem lower_inverts_derivTop (e : Expr) (h : walkOk e = true) : L2.lower (derivTop e) = some (normCtx e) :=
+  L2.lower_derivTop e h
+
+open Xsel.Walk in
+example (a : Arena) (env : Env) (start : Nat) (e : Expr) (h : walkOk e = true) :
+    Walk.run Generated.handlers a env start (derivTop e) = ofEval (Model.run a env start (normCtx e)) :=
+  any_forest_walk_refines_eval a env start _ _ (lower_inverts_derivTop e h)
+
+open Xsel.Walk in
+/-- non-vacuity on a tree that is NOT canonical: the forest of the abbreviated spelling `@k` -/
+example : (match L2.lower (lift 0 8 (N "PathExpr" [N "LocationPath" [N "RelativeLocationPath" [N "Step"
+    [N "StepWithAxisAndNodeTest" [N "AxisSpecifier" [N "AbbreviatedAxisSpecifier" [tkp .at]],
+      testNode (.name ['k'])]]]]])) with
+    | some x => Expr.same x (.step .ctx .attribute (.name ['k']) .nil)
+    | none => false) = true := by decide +kernel
 
 end Xsel.C08
